@@ -118,10 +118,8 @@ pub fn read_prepared(ftr: &FilesToRead) -> Result<Doc, ReadError> {
 }
 
 pub fn read(fs: &FileSet) -> Result<Doc, ReadError> {
-    if !fs.files.iter().any(|f| f.0 == fs.start) {
-        // FilesToRead::inner() would unwrap a missing start file; callers that want to probe
-        // that go through read_prepared directly.
-        return Err(ReadError::Err("start file not in set".into()));
+    if fs.files.is_empty() {
+        return Err(ReadError::Err("empty file set".into()));
     }
     read_prepared(&fs.to_read())
 }
